@@ -6,6 +6,6 @@ CONSTANTS
   Classes = {"GoodKA", "BadLine", "BadHeader", "BadCL", "TlsHello", "TlsCut", "Truncate"}
   Racing = FALSE
   Linger = TRUE
-  DefectSets = {{}}
+  DefectSets = {{}, {"echo505", "cookieecho"}}
 INVARIANT TypeOK
 CHECK_DEADLOCK FALSE
